@@ -503,8 +503,21 @@ func c4forms(t c4T, thorough bool) []*c4form {
 		add("named constant as an operand "+cs, []c4T{t}, "any", "const k = "+cs+"\nreturn x + k", func(a []float64) c4res { return c4bin("+", t, a[0], c) }, nil)
 		add("tuple assignment to a variable and an element "+cs, nil, "any", "var v "+tn+"\ns := make([]"+tn+", 1)\nv, s[0] = "+cs+", "+cs+"\n_ = s\nreturn v", k, nil)
 		add("tuple assignment to an element and a field "+cs, nil, "any", "p := &S"+tn+"{}\ns := make([]"+tn+", 1)\ns[0], p.f = "+cs+", "+cs+"\n_ = s\nreturn p.f", k, nil)
+		add("tuple assignment to two elements, first "+cs, nil, "any", "s := make([]"+tn+", 2)\ns[0], s[1] = "+cs+", "+cs+"\nreturn s[0]", k, nil)
+		add("tuple assignment to two elements, second "+cs, nil, "any", "s := make([]"+tn+", 2)\nt := make([]"+tn+", 2)\ns[0], t[1] = "+cs+", "+cs+"\n_ = s\nreturn t[1]", k, nil)
+		add("tuple assignment to a map entry and an element "+cs, nil, "any", "m := map[int]"+tn+"{}\ns := make([]"+tn+", 1)\nm[1], s[0] = "+cs+", "+cs+"\n_ = s\nreturn m[1]", k, nil)
+		add("tuple assignment to a field and an element, the element "+cs, nil, "any", "p := &S"+tn+"{}\ns := make([]"+tn+", 1)\np.f, s[0] = "+cs+", "+cs+"\nreturn s[0]", k, nil)
+		add("tuple assignment then use "+cs, []c4T{t}, "any", "s := make([]"+tn+", 2)\ns[0], s[1] = "+cs+", "+cs+"\ns[1] += x\nreturn s[1]", func(a []float64) c4res { return c4bin("+", t, c, a[0]) }, nil)
 		add("typed constant "+cs, nil, "any", "const k "+tn+" = "+cs+"\nv := k\nreturn v", k, nil)
 		add("typed constant then use "+cs, []c4T{t}, "any", "const k "+tn+" = "+cs+"\nv := k\nv += x\nreturn v", func(a []float64) c4res { return c4bin("+", t, c, a[0]) }, nil)
+		// const groups: a line without an expression repeats the previous expression AND its type; a line with an
+		// expression of its own and no type is untyped again, and so are the lines that repeat it
+		add("typed const group, repeated line "+cs, nil, "any", "const (\n\ta "+tn+" = "+cs+"\n\tb\n)\nv := b\nreturn v", k, nil)
+		add("typed const group, repeated line then use "+cs, []c4T{t}, "any", "const (\n\ta "+tn+" = "+cs+"\n\tb\n\tc\n)\nv := c\nv += x\nreturn v", func(a []float64) c4res { return c4bin("+", t, c, a[0]) }, nil)
+		if t != c4f64 {
+			add("const group: typed line, untyped line, repeated line "+cs, nil, "any", "const (\n\ta "+tn+" = "+cs+"\n\tb = "+cs+"\n\tc\n)\nvar f float64 = c\nreturn f", func(a []float64) c4res { return c4res{v: c, t: c4f64} }, nil)
+			add("const group: untyped line, typed line, repeated line "+cs, nil, "any", "const (\n\ta = "+cs+"\n\tb "+tn+" = "+cs+"\n\tc\n)\nvar f float64 = a\nv := c\n_ = v\nreturn f", func(a []float64) c4res { return c4res{v: c, t: c4f64} }, nil)
+		}
 	}
 	// J2. two constants in a row: evaluated left to right ((x op1 c1) op2 c2), never regrouped - regrouping is invisible
 	// for wrapping integers but changes float64 rounding (2^53 + 1 + 2, 1e-20 + 1 - 1)
